@@ -191,6 +191,7 @@ PARTS = [
     Part("long", strategy=lambda tier: long_cases(tier), run=run_long, quick=300, thorough=20000),
     Part("xy-rewards", strategy=lambda tier: xy_cases(tier), run=run_xy, quick=400, thorough=12000),
 ]
+RULE = RULE + (" long: the same replay on episodes of 20-50 timesteps over 4-8 contracts with up to 60 extra quotes.")
 RULE = RULE + (" xy-rewards: generated TradingEnvXY configurations (xylab) with reward_clipping in {0.5,1,2,3} and risk_aversion in {0,0.1,0.5}, "
                "near fully invested; every step's reward must equal clip(log(NLV now / recorded pre-trade NLV) / scale, +-reward_clipping) "
                "(x (1+risk_aversion) when negative) with scale recomputed from the input prices up to transformer_end; non-trivial = the clip "
